@@ -94,6 +94,11 @@ pub struct SimNet {
     pub bg_delay_every: u64,
     pub bg_until: i32,
     bg_count: u64,
+    /// when on: (to, from) -> newest input frame contained in any Input packet handed to `to`
+    pub track_frames: bool,
+    pub delivered_frames: HashMap<(Addr, Addr), i32>,
+    /// (to, from, virtual time of the poll) for every poll that handed over >= 1 packet of `from`
+    pub recv_log: Vec<(Addr, Addr, u64)>,
 }
 
 impl SimNet {
@@ -118,6 +123,9 @@ impl SimNet {
             bg_delay_every: 0,
             bg_until: 0,
             bg_count: 0,
+            track_frames: false,
+            delivered_frames: HashMap::new(),
+            recv_log: Vec::new(),
         }
     }
 
@@ -231,6 +239,21 @@ impl SimNet {
         for p in out {
             self.stats.delivered[p.kind as usize] += 1;
             self.last_recv_us.insert((to, p.from), now);
+            if self.recv_log.last() != Some(&(to, p.from, now)) {
+                self.recv_log.push((to, p.from, now));
+            }
+            if self.track_frames && p.kind == crate::wire::K_INPUT {
+                if let WBody::Input(inp) = to_wire(&p.msg).body {
+                    // the number of encoded inputs does not depend on the delta reference
+                    if let Ok(v) = ggrs::verif_hooks::codec::decode(&[], &inp.bytes) {
+                        let newest = inp.start_frame + v.len() as i32 - 1;
+                        let e = self.delivered_frames.entry((to, p.from)).or_insert(-1);
+                        if newest > *e {
+                            *e = newest;
+                        }
+                    }
+                }
+            }
             res.push((p.from, p.msg));
         }
         let mut k = 0;
